@@ -109,6 +109,36 @@ def check_pair(arg):
     return fails, 1
 
 
+def check_group_history(arg):
+    """query, edit the members of a referenced address group in place, query again: answers equal those of fresh objects"""
+    import cisco_acl
+    platform, top_l, bot_l, m1, m2 = arg
+    fails = []
+
+    def mk(line, members):
+        a = cisco_acl.Ace(line, platform=platform)
+        for addr in (a.srcaddr, a.dstaddr):
+            if addr.addrgroup:
+                addr.items = [cisco_acl.Address(m, platform=platform) for m in members]
+        return a
+    top, bot = mk(top_l, m1), mk(bot_l, m1)
+    bot.shadow_of(top)
+    for ace in (top, bot):
+        for addr in (ace.srcaddr, ace.dstaddr):
+            if addr.addrgroup:
+                addr.items.clear()
+                addr.items.extend(cisco_acl.Address(m, platform=platform) for m in m2)
+    got = bot.shadow_of(top)
+    want = mk(bot_l, m2).shadow_of(mk(top_l, m2))
+    if got != want:
+        fails.append(dict(key="bounded/shadow_of:stale-after-group-edit",
+                          what=f"{bot_l!r}.shadow_of({top_l!r}) after changing the group members in place from {m1} to {m2}: {got}, fresh objects: {want}",
+                          inputs=dict(platform=platform, top=top_l, bottom=bot_l, members_before=m1, members_after=m2),
+                          cmd=("import sys; sys.path.insert(0, 'props'); import C03\n"
+                               f"fails, _ = C03.check_group_history({arg!r})\nprint([f['what'] for f in fails]); sys.exit(1 if fails else 0)\n")))
+    return fails, 1
+
+
 def replay_port_sound(model, ob):
     """focused native search for the `port sound` clause: a top with an operator and an empty port set"""
     side = "src" if "srcport" in ob.target else "dst"
@@ -172,12 +202,35 @@ def bounded(chk, prop_filter=None):
                     [dict(top=sc.ACES[c[0]][c[1]], bottom=sc.ACES[c[0]][c[2]]) for c in cases[:3]], exhaustive=True)
 
 
+def bounded_histories(chk):
+    t0 = time.time()
+    M = {"ios": [["10.0.0.0 0.0.0.3"], ["10.0.0.0 0.0.0.3", "192.168.1.0 0.0.0.255"], ["10.0.0.0 0.0.0.255"], []],
+         "nxos": [["10.0.0.0/30"], ["10.0.0.0/30", "192.168.1.0/24"], ["10.0.0.0/24"], []]}
+    cases = []
+    for p in ("ios", "nxos"):
+        g = "object-group G1" if p == "ios" else "addrgroup G1"
+        net = "10.0.0.0 0.0.0.255" if p == "ios" else "10.0.0.0/24"
+        for top_l, bot_l in ((f"permit ip {net} any", f"permit ip {g} any"), (f"permit ip {g} any", f"permit ip {net} any"),
+                             (f"permit ip any {g}", f"permit ip any {g}"), (f"permit ip {g} any", f"permit ip {g} any")):
+            for m1, m2 in itertools.permutations(M[p], 2):
+                cases.append((p, top_l, bot_l, m1, m2))
+    res = pmap(check_group_history, cases)
+    viol = 0
+    for fails, _ in res:
+        for f in fails:
+            viol += 1
+            chk.finding(f["key"], f["what"], inputs=f["inputs"], cmd=f.get("cmd"), key=f["key"])
+    chk.add_bounded("shadow_of before and after in-place edits of address-group members", len(cases), len(cases),
+                    "4 ACE pairs with groups x all ordered pairs of 4 member lists x 2 platforms", viol, time.time() - t0, [list(cases[1][1:])], exhaustive=True)
+
+
 def main(chk):
     chk.prove(["c_helpers", "c_shadow"])
     attach_replays()
     chk.replay_refuted()
     chk.lemmas(lemmas())
     bounded(chk)
+    bounded_histories(chk)
     chk.assumptions += [
         "object views: Inv(Port) (no operator => no ports) and Inv(Address) are class invariants established by the line setters (checked by the C06/C01 bounded monitors, not proved)",
         "assumed contracts: Protocol.name.fget (ip <=> 0, decided by C09), AddressBase.ipnets (ghost value; see C13/C05)",
